@@ -753,3 +753,73 @@ _now("C15",
      "Known findings I5 (VARIABLE_DEFINITION is not a member of __DirectiveLocation), I10, T14 (C14's finding seen through introspection: oracle "
      "derived-defaults). introspect_lossless_end_to_end: Spec.decodeAll reads every entry (possibleTypes of interfaces included) and equals "
      "(norm s, implementers s) within the TypeRef depth of the standard query; checked on the REAL answer on every run.")
+# ---------------------------------------------------------------------------------------------------------------
+# State after the builder waves `sdl` / `sdl2` (C12, C03): final-state texts; the addenda above are folded in.
+# ---------------------------------------------------------------------------------------------------------------
+CHECKS["C12"].update({
+    "text": ("THREE Lean models of ASTSchemaPrinter, all compared with the real printer's exact text on every run. (a) SdlPrint.printSchema / printSchemaX "
+             "(String level, the module-level directive-name state threaded explicitly, all four options; include_introspection with the library constants "
+             "re-read from the live objects): print_pure and print_pure_all_options (for every history of to_string calls, any schemas, any options, the k-th "
+             "output equals the output of that call alone in a fresh state; print_pure_refuted_today_full is the 2-call witness of H1 on the legacy generator "
+             "state). (b) the DOCUMENT the printer denotes: print_build_roundtrip / print_build_roundtrip_block (printBuildWF s => build (schemaToDoc s) = ok s, "
+             "the predicate names every excluded shape: H2, H5, H6, H8; print_build_roundtrip_needs_NoH2 refutes the statement without the H2 clause), "
+             "default_roundtrip / default_roundtrip_doc (every canonical default of every input kind, any nesting, reads back), custom_structured_roundtrip, "
+             "printBuildWF_printOrder. (c) SdlPrintT.printSchemaT and SdlPrintTA.printSchemaTA (total Text models; TA = with print_directives at every site, "
+             "include_custom_schema_directives True or a whitelist, lone-space quirk included): print_schema_text_parses and print_schema_text_parses_custom "
+             "(FULL: for every option set, every schema in any order and every assignment of directive nodes satisfying the lexical predicate printTextWF(A), "
+             "the printed text is accepted by the lexer and parser models of C01-C03 and parses to the tree of the printed document, all six kinds, both "
+             "argument layouts, the three description layouts, defaults, any space/tab indent), printSchemaTA_conservative, custom_directives_erased, and the "
+             "compositions text_roundtrip_final / text_roundtrip_custom_final / text_roundtrip_custom_build (hypotheses on s and apps only: the text parses "
+             "to a document that builds a schema equal to s up to the order of definitions; applied directives INCLUDED: print_build_roundtrip_custom). "
+             "build_ignores_custom / build_ignores_custom_full (FULL, every document - valid or not, with type and schema extensions - every value of "
+             "ignore_extensions and additional_types: build doc = build (doc.map eraseCustom), the builder model reads directive applications only through "
+             "@deprecated). THE PRINTER MODELS ARE ONE: printSchemaTA_eq_printSchema (FULL: the String-level model, made total and list-based, and the Text-level "
+             "model print the same code points for every option set, schema and directive assignment whose PRINTED applications consist of lexemes - "
+             "models_differ_on_empty_lexeme shows the hypothesis is needed; no hypothesis without applied directives: printSchemaT_eq_printSchema), "
+             "runHistory_texts (every output of every call history is the Text model's text), print_schema_text_parses_string / text_roundtrip_string (the "
+             "text theorems about the model the history correspondence compares). LONG DESCRIPTION LINES (wrapped_lines, modelled exactly in both models): "
+             "wrapped_description_lexes (FULL: a description inside descWrapOK - descTextOK without its width clause, shape conditions asked of the wrapped "
+             "lines - is printed, at every depth and space/tab indent, as text the lexer model reads as exactly ONE BlockString token whose value is the wrapped "
+             "lines joined by line feeds), descWrapOK_extends, wrapped_short_value, and h12_value_differs (finding H12 on the model: the value read back is not "
+             "the description); the statement is also evaluated against the real code (driver op wrapDesc: the description read back from to_string equals the "
+             "model's wrapped value, named probes + a long-description stream); rewrapped_description_fixpoint (wrapped lines that FIT are printed the "
+             "same way again: the text is a fixpoint from the first round) with h12_not_a_fixpoint (refuted for an unbreakable word longer than the width), "
+             "and at SCHEMA level printSchemaT_rewrap_invariant / print_schema_text_parses_rewrapped / text_roundtrip_rewrapped: the text theorems WITHOUT the "
+             "width clause - the printed text of a schema with over-long description lines parses to, and builds, the RE-WRAPPED schema (rewrapSchema), whose "
+             "text is the same. include_introspection at TEXT level: SdlPrintTA.printSchemaXTA, tied to the String model for all four options by "
+             "printSchemaXTA_eq_printSchemaX (+ _default: no hypothesis when no directive application is printed) and runHistoryX_texts. "
+             "h5_* / h12_width_boundary state the other description findings. "
+             "Every history also runs in ONE forked child and every call alone in a fresh child; direct oracles dump(build(to_string(s))) == dump(s), "
+             "fixpoint, parser accepts, root names differing only by case, non-root types named Query/Mutation/Subscription, exotic strings, look-alike "
+             "numeric ID defaults, description edge cases."),
+    "note": ("Trusted: Lean kernel; generators; the library constants of include_introspection are re-read, not modelled. The text-level theorems do not cover "
+             "include_introspection=True (its library descriptions are re-wrapped: finding H12, and its output is not rebuildable: C12/1); for include_introspection=True "
+             "the whole-schema PARSE theorem is not composed (the specified directives are printed first and unsorted, outside the print-order core "
+             "lemma); its text is the Text model's (printSchemaXTA_eq_printSchemaX) and each of its re-wrapped descriptions lexes to one block string "
+             "(wrapped_description_lexes). Known findings H2, H5, H6, H8, H12, C12/1, C12/5, C12/6, C12/7 (see known_findings.json). "
+             "Repaired: H1, H3, H9, H11."),
+    "technique": ("Lean 4 proof (printer purity over call histories and all options, document- and text-level round trip with applied directives, "
+                  "builder blind to custom applications, equality of the two printer models, re-wrapped descriptions lex to one block string) + exact-text correspondence of the printer models + fresh-process reference + round-trip oracle"),
+})
+CHECKS["C03"].update({
+    "text": ("String level: quoted_roundtrip (lexAll (jsonDumps v) is exactly the String token v, all code-point lists) and block_roundtrip (FULL: for every "
+             "value the printer lays out as a block string and every enclosing indentation, lexing the printed text and applying BlockStringValue gives the "
+             "value back; layout lemmas splitLines/joinLF, commonIndent shift, stripBlank). Document level: Lean model of the whole ASTPrinter (every print_*, "
+             "_wrap/_join/_block/_indent, indent int or string, include_descriptions): print_tokens_*, print_parse_type / print_parse_value_full / "
+             "print_parse_executable (exact), print_parse_document_modulo_members / print_parse_document_exact, and at TEXT level, quantified over EVERY text "
+             "the lexer and parser models accept, every flag combination with no_location and EVERY indentation (IndentOK: any string over space/tab; "
+             "print_parse_every_indent_arg / print_parse_loss_every_indent_arg instantiate it for the `indent` ARGUMENT: every int - negative ints print like "
+             "0 - and every space/tab string; indent_content_refuted shows any other character is content): print_parse_modulo_members, "
+             "print_stable, print_parse_exact, and the headline print_parse (the full statement except the pinned finding R4, with the exclusion as the "
+             "predicate HasMemberDescription) with print_parse_iff (the exclusion is EXACT: a parsed tree round-trips iff it has no member description) and "
+             "print_parse_loss (what is lost is only that; printing the re-parsed tree gives the same text); parser_output_ok is the bridge from parser output "
+             "to the printer's well-formedness conditions. print_parse_refuted + r4_* = machine-checked witness of R4 (pinned by test_schema_kitchen_sink). "
+             "print_total, float_lexeme_spec, print_deep_list / print_deep_list_type (the model printer is total at every nesting depth). Tied by EXACT-TEXT "
+             "correspondence of the pipeline text -> lexAll -> parse -> print with print_ast on generated executable and type-system documents, fixtures and "
+             "mutants for 7 indent settings, the direct round-trip / stability oracle, call histories on shared printer instances, a deep-nesting stream "
+             "per recursive position with measured boundaries, and a deterministic indent-domain block (negative, odd and large widths, mixed space/tab strings)."),
+    "note": ("Trusted: Lean kernel; generators. include_descriptions=False is outside the statement. Known findings R4 (member descriptions dropped by the AST "
+             "printer; why the unrestricted round trip is 'modulo members'), R7 (print_ast raises RecursionError on deeply nested documents the parser accepts; "
+             "a divergence of the recursive implementation from the total model). Repaired: R1, R2, R3, R5, R6."),
+    "technique": "Lean 4 proof (string encoders, block-string layout, whole-document print/parse round trip at text level for every indent) + exact-text printer correspondence + round-trip oracle",
+})
